@@ -182,6 +182,12 @@ fn run(ctx: &Ctx) {
         },
         check,
     );
+    // offset and length sweep: each construct kind with an inner length 0..=70 placed after a prefix of
+    // 0..=130 bytes (block-wise scanners, buffer growth), and large inputs around 256 / 4096 / 8192 /
+    // 65 536 bytes (positions beyond u8 / u16, default buffer capacities)
+    let (pmax, qmax, vars) = ctx.tier.pick((130u64, 70u64, 2u64), (260, 140, 4));
+    ctx.run_indexed("offset-and-length-sweep", gen::sweep_count(pmax, qmax, vars) * 2, |i| Some(Case { input: B(gen::sweep_nth(i / 2, pmax, qmax, vars)), cfg: rotated_cfg(seed, i / 2, i % 2) }), check);
+    ctx.run_indexed("large-inputs", gen::big_count() * 4, |i| Some(Case { input: B(gen::big_nth(i / 4)), cfg: rotated_cfg(seed, i / 4, i % 4) }), check);
 }
 
 fn replay(_stage: &str, case: &Value) -> Result<Verdict, String> {
